@@ -1129,14 +1129,14 @@ package decimal
 //@   hint[ret] Vdef(z, 0, m)
 
 //@ func (z dec) divW(x dec, y Word) (q dec, r Word)
-//@   requires[words]   wordsok(x) && small(x) && natnorm(x) && y != 0 && y <= B
+//@   requires[words]   wordsok(x) && small(x) && y != 0 && y <= B
 //@   requires[overlap] dst_ok(z, x)
 //@   modifies memcap(z)
 //@   ensures[where]    result_in(q, z)
-//@   ensures[words,C08] wordsok(q) && natnorm(q)
+//@   ensures[words,C08] wordsok(q) && (old(natnorm(x)) || y != 1 ==> natnorm(q))
 //@   ensures[value,C06] V(q)*y + r == old(V(x)) && r < y
-//@   ensures[len,C06]   len(q) <= len(x) && len(q) + 1 >= len(x)
-//@   hint[ret] len(x) >= 1 ==> V_ge_P(old(x), 0, len(x))
+//@   ensures[len,C06]   len(q) <= len(x) && (old(natnorm(x)) ==> len(q) + 1 >= len(x))
+//@   hint[ret] len(x) >= 1 && old(natnorm(x)) ==> V_ge_P(old(x), 0, len(x))
 //@   hint[ret] V_bounds(q, 0, len(q))
 //@   hint[ret] mul_mono(V(q) + 1, P(len(q)), y)
 //@   hint[ret] mul_mono(y, B, P(len(q)))
@@ -1603,9 +1603,9 @@ package decimal
 //@   hint[after:sqr#1] mul_eq(V(result), V(x[k:])*V(x[k:]), P(2*k))
 
 //@ func (z dec) div(z2, u, v dec) (q, r dec)
-//@   requires[words]   wordsok(u) && wordsok(v) && natnorm(u) && natnorm(v) && len(v) >= 1 && small(u) && small(v)
+//@   requires[words]   wordsok(u) && wordsok(v) && natnorm(u) && natnorm(v) && len(v) >= 1 && len(u) <= 100000000 && len(v) <= 100000000
 //@   requires[overlap] z2.arr != z.arr || cap(z2) == 0 || cap(z) == 0
-//@   requires[dst]     dst_ok(z, u) && dst_ok(z2, u)
+//@   requires[dst]     dst_ok(z, u) && dst_ok(z2, u) && (z2.arr != v.arr || cap(z2) == 0)
 //@   modifies memcap(z), memcap(z2)
 //@   ensures[where]    result_in(q, z) && result_in(r, z2)
 //@   ensures[words,C06,C08] wordsok(q) && natnorm(q) && wordsok(r) && natnorm(r)
@@ -1680,16 +1680,85 @@ package decimal
 //@   hint[after:add10VW#1] result >= 1 ==> mul_mono(1, result, P(len(z)))
 //@   hint[after:add10VW#1] mul_eq(V(z[i+len(x):]) + result*P(len(z) - i - len(x)), pre(V(z[i+len(x):])) + 1, P(i + len(x)))
 
-// divLarge (Knuth D / recursive division behind a normalisation step) is the part of the
-// division that stays assumed; dec.div's dispatch, the short-dividend and the one-word
-// divisor cases are verified above.
+// Knuth's normalisation step: scaling by d = floor(B/(t+1)) brings the leading word to B/2.
+//@ lemma knuth_norm(t)
+//@   requires 1 <= t && t < B
+//@   ensures t*(B/(t + 1)) >= B/2 && (t + 1)*(B/(t + 1)) <= B && B/(t + 1) >= 1
+
+// divBasic (Knuth D with add-back) and divRecursive (Burnikel-Ziegler) stay assumed: q and
+// the remainder left in u satisfy the division identity for a normalised divisor.
+//@ func (q dec) divBasic(u, v dec)
+//@   requires[len]   len(v) >= 2 && len(u) >= len(v) && len(q) == len(u) - len(v) && len(u) <= 1099511627775
+//@   requires[words] wordsok(u) && wordsok(v) && v[len(v)-1] >= B/2 && V(u) < V(v)*P(len(q))
+//@   requires[apart] q.arr != u.arr && q.arr != v.arr && u.arr != v.arr
+//@   modifies mem(q), mem(u)
+//@   ensures[words,C06] wordsok(q) && wordsok(u)
+//@   ensures[value,C06] V(q)*V(v) + V(u) == old(V(u)) && V(u) < V(v)
+//@   ensures[operand,C09] samewords(v, old(v))
+//@   status assumed bounded: bounded/c06_test.go (Knuth D: quotient digit estimate, multiply-subtract, add-back)
+
+//@ func (z dec) divRecursive(u, v dec)
+//@   requires[len]   len(v) >= 2 && len(u) >= len(v) && len(z) == len(u) - len(v) && len(u) <= 1099511627775
+//@   requires[words] wordsok(u) && wordsok(v) && v[len(v)-1] >= B/2 && V(u) < V(v)*P(len(z))
+//@   requires[apart] z.arr != u.arr && z.arr != v.arr && u.arr != v.arr
+//@   modifies mem(z), mem(u)
+//@   ensures[words,C06] wordsok(z) && wordsok(u)
+//@   ensures[value,C06] V(z)*V(v) + V(u) == old(V(u)) && V(u) < V(v)
+//@   ensures[operand,C09] samewords(v, old(v))
+//@   status assumed bounded: bounded/c06_test.go (recursive division on top of divBasic and dec.mul)
+
+// divLarge: normalise (v = vIn*d, u = uIn*d with d = B/(vIn[n-1]+1)), divide, denormalise the
+// remainder (u/d, exact).
 //@ func (z dec) divLarge(u, uIn, vIn dec) (q, r dec)
-//@   requires[words]   wordsok(uIn) && wordsok(vIn) && natnorm(uIn) && natnorm(vIn) && len(vIn) >= 2 && small(uIn) && small(vIn) && V(uIn) >= V(vIn)
+//@   requires[words]   wordsok(uIn) && wordsok(vIn) && natnorm(uIn) && natnorm(vIn) && len(vIn) >= 2 && len(uIn) <= 100000000 && len(vIn) <= 100000000 && V(uIn) >= V(vIn)
 //@   requires[overlap] u.arr != z.arr || cap(u) == 0 || cap(z) == 0
+//@   requires[dst]     dst_ok(z, uIn) && dst_ok(u, uIn) && (u.arr != vIn.arr || cap(u) == 0)
 //@   modifies memcap(z), memcap(u)
 //@   ensures[where]    result_in(q, z) && result_in(r, u)
 //@   ensures[words,C06,C08] wordsok(q) && natnorm(q) && wordsok(r) && natnorm(r)
 //@   ensures[value,C01,C02,C06] V(q)*old(V(vIn)) + V(r) == old(V(uIn)) && V(r) < old(V(vIn))
 //@   ensures[len]      len(q) <= len(uIn) && len(q) + len(vIn) >= len(uIn)
 //@   ensures[operands,C09,C18] (!goalias(z, uIn) && !goalias(u, uIn) ==> samewords(uIn, old(uIn))) && (!goalias(z, vIn) && !goalias(u, vIn) ==> samewords(vIn, old(vIn)))
-//@   status assumed bounded: bounded/c06_test.go
+//@   hint[entry] knuth_norm(vIn[len(vIn)-1])
+//@   hint[entry] V_bounds(uIn, 0, len(uIn))
+//@   hint[entry] V_nonneg(uIn, 0, len(uIn))
+//@   hint[entry] V_bounds(vIn, 0, len(vIn))
+//@   hint[entry] V_ge_P(vIn, 0, len(vIn))
+//@   hint[entry] len(uIn) >= 1 ==> V_ge_P(uIn, 0, len(uIn))
+//@   hint[entry] len(uIn) < len(vIn) ==> P_mono(len(uIn), len(vIn) - 1)
+//@   hint[entry] assert(len(uIn) >= len(vIn))
+//@   hint[entry] Vdef(vIn, 0, len(vIn) - 1)
+//@   hint[entry] V_bounds(vIn, 0, len(vIn) - 1)
+//@   hint[entry] V_nonneg(vIn, 0, len(vIn) - 1)
+//@   hint[entry] Pdef(len(vIn) - 1)
+//@   hint[entry] P_add(len(vIn) - 1, len(uIn) - len(vIn) + 1)
+//@   hint[after:mulAdd10VWW#1] mul_mono(old(V(vIn)) + 1, (old(vIn[n-1]) + 1)*P(n - 1), (B/(old(vIn[n-1]) + 1)))
+//@   hint[after:mulAdd10VWW#1] mul_mono((old(vIn[n-1]) + 1)*(B/(old(vIn[n-1]) + 1)), B, P(n - 1))
+//@   hint[after:mulAdd10VWW#1] V_nonneg(v, 0, n)
+//@   hint[after:mulAdd10VWW#1] result >= 1 ==> mul_mono(1, result, P(n))
+//@   hint[after:mulAdd10VWW#1] assert(result == 0)
+//@   hint[after:mulAdd10VWW#1] mul_eq(result, 0, P(n))
+//@   hint[after:mulAdd10VWW#1] assert(V(v) == old(V(vIn))*(B/(old(vIn[n-1]) + 1)))
+//@   hint[after:mulAdd10VWW#1] Vdef(v, 0, n - 1)
+//@   hint[after:mulAdd10VWW#1] V_bounds(v, 0, n - 1)
+//@   hint[after:mulAdd10VWW#1] mul_mono(old(vIn[n-1])*P(n - 1), old(V(vIn)), (B/(old(vIn[n-1]) + 1)))
+//@   hint[after:mulAdd10VWW#1] mul_mono(B/2, old(vIn[n-1])*(B/(old(vIn[n-1]) + 1)), P(n - 1))
+//@   hint[after:mulAdd10VWW#1] v[n-1] + 1 <= B/2 ==> mul_mono(v[n-1] + 1, B/2, P(n - 1))
+//@   hint[after:mulAdd10VWW#1] assert(v[n-1] >= B/2)
+//@   hint[after:mulAdd10VWW#2] Vdef(u, 0, m)
+//@   hint[after:mulAdd10VWW#2] mul_mono(P(n - 1), old(V(vIn)), P(m - n + 1))
+//@   hint[after:mulAdd10VWW#2] mul_mono(old(V(uIn)) + 1, old(V(vIn))*P(m - n + 1), (B/(old(vIn[n-1]) + 1)))
+//@   hint[after:mulAdd10VWW#2] mul_eq(V(v), old(V(vIn))*(B/(old(vIn[n-1]) + 1)), P(m - n + 1))
+//@   hint[after:divBasic#1] mul_eq(V(v), old(V(vIn))*(B/(old(vIn[n-1]) + 1)), V(q))
+//@   hint[after:divRecursive#1] mul_eq(V(v), old(V(vIn))*(B/(old(vIn[n-1]) + 1)), V(q))
+//@   hint[after:divW#1] (old(V(uIn)) - V(q)*old(V(vIn))) - V(result0) >= 1 ==> mul_mono(1, (old(V(uIn)) - V(q)*old(V(vIn))) - V(result0), (B/(old(vIn[n-1]) + 1)))
+//@   hint[after:divW#1] (old(V(uIn)) - V(q)*old(V(vIn))) - V(result0) <= 0 - 1 ==> mul_mono((old(V(uIn)) - V(q)*old(V(vIn))) - V(result0), 0 - 1, (B/(old(vIn[n-1]) + 1)))
+//@   hint[after:divW#1] assert(V(result0) == (old(V(uIn)) - V(q)*old(V(vIn))) && result1 == 0)
+//@   hint[after:divW#1] (old(V(uIn)) - V(q)*old(V(vIn))) >= old(V(vIn)) ==> mul_mono(old(V(vIn)), (old(V(uIn)) - V(q)*old(V(vIn))), (B/(old(vIn[n-1]) + 1)))
+//@   hint[after:divW#1] assert(V(result0) < old(V(vIn)))
+//@   hint[ret] V_bounds(q, 0, len(q))
+//@   hint[ret] V_nonneg(q, 0, len(q))
+//@   hint[ret] m > n ==> P_add(m - n - 1, n)
+//@   hint[ret] mul_mono(old(V(vIn)), P(n), V(q) + 1)
+//@   hint[ret] m > n && V(q) + 1 <= P(m - n - 1) ==> mul_mono(V(q) + 1, P(m - n - 1), P(n))
+//@   hint[ret] m > n && len(q) <= m - n - 1 ==> P_mono(len(q), m - n - 1)
